@@ -116,7 +116,9 @@ def run_threads(case):
         try:
             return ('ok', repr(norm(model.parse(t, **case.get('parse_kw', {})))))
         except Exception as e:  # noqa: BLE001
-            return ('err', type(e).__name__)
+            from tatsu.exceptions import FailedParse
+            import traceback as _tb
+            return ('err', type(e).__name__) if isinstance(e, FailedParse) else ('err', type(e).__name__, str(e)[:200], _tb.format_exc()[-1800:])
     want = {t: parse(t) for t in inputs}
     old = sys.getswitchinterval()
     sys.setswitchinterval(1e-6)
@@ -198,3 +200,56 @@ def run_genparser_pairs(case):
                 if got[1] != want[1]:
                     bad.append({'first': a, 'first_failed': first_text != text, 'second': b, 'expected': want[0], 'observed': got[0]})
     return bad
+
+
+def run_identity(case):
+    """Replay one behaviour of spec/SemIdentity.tla (design ById: New / Drop / Parse with address reuse) in this fresh interpreter.
+    New(o) at an address a dead object had: allocate until the real id() equals the dead object's (bounded); Drop(o): drop the only
+    reference and collect; Parse(o): model.parse(text, semantics=<o>) - the actions that run must be those of o."""
+    import gc
+    import tatsu
+    from .dotgraph import split_action
+    model = tatsu.compile("start = x:'a' {'b'} ;")
+
+    class Plain:
+        pass
+
+    class Tag:
+        def start(self, ast, *a, **k):
+            return ('TAG', dict(ast))
+
+    def make(name):
+        return Plain() if name.startswith('p') else Tag()
+    objs, oldid, bad, reused, steps = {}, {}, [], 0, 0
+    for label, st in case['path']:
+        act, args = split_action(label)
+        steps += 1
+        if act == 'New':
+            o = args[0]
+            a = st['addr'][o]
+            want = oldid.get(a)
+            junk = []
+            obj = make(o)
+            if want is not None and id(obj) != want:
+                for _ in range(4000):
+                    junk.append(obj)
+                    obj = make(o)
+                    if id(obj) == want:
+                        break
+            if want is not None and id(obj) == want:
+                reused += 1
+            del junk
+            objs[o] = obj
+            oldid[a] = id(obj)
+        elif act == 'Drop':
+            objs.pop(args[0], None)
+            gc.collect()
+        elif act == 'Parse':
+            o = args[0]
+            r = model.parse('a b', semantics=objs[o])
+            got = 'tag' if isinstance(r, tuple) and r and r[0] == 'TAG' else 'plain'
+            want_beh = 'plain' if o.startswith('p') else 'tag'
+            if got != want_beh:
+                bad.append({'step': steps, 'object': o, 'expected': want_beh, 'observed': got,
+                            'history': [lbl for lbl, _s in case['path'][:steps]]})
+    return {'bad': bad, 'reused': reused}
